@@ -422,9 +422,16 @@ def subst(t, mapping):
 
 # ---------------------------------------------------------------- pretty printer
 
+NAMES = {}   # display abbreviations: term -> short name (set by the spec modules)
+
+
 def show(t, depth=0):
     if not isinstance(t, Tm):
         return repr(t)
+    if depth > 0 or True:
+        nm = NAMES.get(t)
+        if nm is not None:
+            return nm
     k = t[0]
     if k == 'num':
         q = numval(t)
